@@ -20,6 +20,47 @@ def special_cells(rng, r, impl_lookup):
     return [f"lonlat_to_cell {geo.hx(lon)} {geo.hx(lat)} {r}" for lon, lat in pts]
 
 
+def generated_float(name):
+    """exact value of a float constant of the regenerated tables (A5/Gen/Tables.lean)"""
+    import os, re
+    src = open(os.path.join(core.LEAN, "A5", "Gen", "Tables.lean")).read()
+    m = re.search(r"def " + name + r" : FConst := ⟨0x[0-9a-f]+, \((-?\d+)\), \((-?\d+)\)⟩", src)
+    return None if not m else int(m.group(1)) * 2.0 ** int(m.group(2))
+
+
+def switch_circle_cells(run, rng, count):
+    from .C15 import cart, sph
+    sw = generated_float("SAFE_ACOS_SWITCH")
+    if not sw or not (0 < sw < 0.5):
+        return []
+    rho = 2 * math.asin(sw)
+    c0 = core.impl_only(run, ["consts"])[0]
+    axes = []
+    for tok in c0.split(" | ")[2].split():
+        f = tok.split(":")
+        axes.append(cart(geo.fx(f[1]), geo.fx(f[2])))
+    treq, tmeta = [], []
+    for _ in range(count):
+        c = rng.choice(axes)
+        a0 = (0.0, 0.0, 1.0) if abs(c[2]) < 0.9 else (1.0, 0.0, 0.0)
+        e1 = geo.unit(geo.cross(a0, c)); e2 = geo.cross(c, e1)
+        az = rng.uniform(0, 2 * math.pi)
+        r = rng.choice([24, 26, 27, 28, 29])
+        size = math.sqrt(4 * math.pi / ncells(r))
+        d = rho + rng.uniform(-0.4, 0.4) * size
+        v = [math.cos(d) * c[i] + math.sin(d) * (math.cos(az) * e1[i] + math.sin(az) * e2[i]) for i in range(3)]
+        th, ph = sph(v)
+        treq.append(f"to_lonlat {geo.hx(th)} {geo.hx(ph)}"); tmeta.append(r)
+    tl = core.impl_only(run, treq)
+    lreq = []
+    for a, r in zip(tl, tmeta):
+        t = a.split()
+        if t[0] == "ok":
+            lreq.append(f"lonlat_to_cell {t[1]} {t[2]} {r}")
+    li = core.impl_only(run, lreq)
+    return sorted({int(a.split()[1]) for a in li if a.startswith("ok ")})
+
+
 def run(run):
     rng = run.rng
     run.do_ties()
@@ -48,7 +89,12 @@ def run(run):
     li = core.impl_only(run, look)
     extra = [int(a.split()[1]) for a in li if a.startswith("ok ")]
     rnd = [gen.rand_cell(rng, rng.randint(rmax + 1, 29)) for _ in range(run.n(250, 6000))]
-    cells = cells + extra + rnd
+    # fine cells straddling the circle around each face centre on which the inverse projection switches between the two
+    # branches of safe_acos (radius 2*asin(switch), with the switch value regenerated from the source): a mismatch of the
+    # branches is a step that only cells much smaller than the circle can see
+    circ = switch_circle_cells(run, rng, 40 if quick else 600)
+    run.extra["switch_circle_cells"] = len(circ)
+    cells = cells + extra + rnd + circ
     breq = []
     for c in cells:
         r = spec.decode(c)[0]
@@ -73,12 +119,58 @@ def run(run):
         if r <= rmax:
             per_res_sum[r] = per_res_sum.get(r, 0.0) + abs(area)
         run.nontrivial.add(c)
+    # drill-down: where implementation and model report different boundary points, the behaviour of the code changed; an
+    # error that is far below the tolerance for a coarse cell can be far above it for the fine cells at the same place
+    # (a step of 1e-11 rad is 1e-3 of a cell of resolution 28), so the fine cells at those points are measured too
+    if run.corr_disagreements and not run.violations:
+        spots = []
+        for d in run.corr_disagreements:
+            if not d["request"].startswith("cell_to_boundary"):
+                continue
+            try:
+                # the recorded responses are cut at 2000 characters: drop the (possibly incomplete) last point
+                ri = geo.parse_ring(d["impl"][: d["impl"].rfind(";")])
+                rm = geo.parse_ring(d["model"][: d["model"].rfind(";")])
+            except (ValueError, IndexError, TypeError):
+                continue
+            if not ri or not rm:
+                continue
+            m = min(len(ri), len(rm))
+            ri, rm = [p_ for p_ in ri[:m] if len(p_) == 2], [p_ for p_ in rm[:m] if len(p_) == 2]
+            m = min(len(ri), len(rm))
+            if m == 0:
+                continue
+            k = max(range(m), key=lambda j: abs(ri[j][0] - rm[j][0]) + abs(ri[j][1] - rm[j][1]))
+            spots.append(ri[k])
+        rng.shuffle(spots)
+        dreq = []
+        for lon, lat in spots[: (25 if quick else 200)]:
+            for r in (22, 24, 26, 27, 28, 29):
+                s_ = math.degrees(math.sqrt(4 * math.pi / ncells(r)))
+                for dx, dy in ((0, 0), (0.7, 0.2), (-0.4, 0.6), (0.3, -0.8)):
+                    dreq.append(f"lonlat_to_cell {geo.hx(lon + dx * s_ / max(0.05, math.cos(math.radians(lat))))} {geo.hx(max(-90.0, min(90.0, lat + dy * s_)))} {r}")
+        di = core.impl_only(run, dreq)
+        dcells = sorted({int(a.split()[1]) for a in di if a.startswith("ok ")})
+        dq = [f"cell_to_boundary {c} 1 32" for c in dcells]
+        db = core.impl_only(run, dq, timeout=3000)
+        for c, q, a in zip(dcells, dq, db):
+            run.evaluations += 1
+            ring = geo.parse_ring(a)
+            if ring is None:
+                continue
+            r = spec.decode(c)[0]
+            want = 4 * math.pi / ncells(r)
+            rel = abs(abs(geo.ring_area(ring)) - want) / want
+            worst = max(worst, rel)
+            if rel > TOL:
+                run.violation(f"cell area differs from 4*pi/N({r}) by {rel:.2e} relative (fine cell at a point where implementation and model disagree)", q, a[:160], {"cell": f"{c:#x}"})
+        run.extra["drill_down_cells"] = len(dcells)
     for r, s in per_res_sum.items():
         run.evaluations += 1
         if abs(s - 4 * math.pi) > 1e-6:
             run.violation(f"the areas of all cells of resolution {r} sum to {s}, not 4*pi", f"resolution {r}", str(s))
     run.rule = ("metadata for r = -2..32; polygon area (independent l'Huilier / tangent-plane integrator on the authalic sphere, WGS84 closed-form authalic latitude) of the reported boundary with 64/32 segments per edge: "
-                "all cells of resolution <= %d, cells at the poles, the antimeridian and the dodecahedron vertex/seam latitudes at every resolution, random cells up to r=29; non-trivial = distinct cells measured" % rmax)
+                "all cells of resolution <= %d, cells at the poles, the antimeridian and the dodecahedron vertex/seam latitudes at every resolution, random cells up to r=29, fine cells (r = 24..29) straddling the circle of radius 2 asin(SAFE_ACOS_SWITCH) around the face centres; when implementation and model disagree on a boundary, the fine cells (r = 22..29) at the points of largest disagreement are measured as well; non-trivial = distinct cells measured" % rmax)
     run.samples = [{"request": breq[i], "area_rel_err": "see worst_relative_error", "impl": bimpl[i][:100]} for i in rng.sample(range(len(breq)), 4)]
     run.extra["worst_relative_error"] = worst
     run.extra["exhaustive_up_to_resolution"] = rmax
